@@ -112,6 +112,21 @@ fn alphabet() -> Vec<Dev> {
             }
         }
     }
+    // a default variant with a `serialize` literal but no to_string still prints what it captured
+    for (pn, first) in [("first", true), ("last", false)] {
+        d.push(dev(format!("default variant {} (tuple, String, serialize=[\"dser\"])", pn), &["default"], move |s| {
+            let mut v = VariantSpec::unit("Dd");
+            v.default = true;
+            v.kind = Kind::Tuple(vec![FieldTy::Str]);
+            v.serialize = vec!["dser".into()];
+            if first {
+                s.variants.insert(0, v);
+            } else {
+                s.variants.push(v);
+            }
+            true
+        }));
+    }
     // the transparent field is the enum's own type parameter, bounded only in a where clause
     for named in [false, true] {
         d.push(dev(format!("transparent variant last ({}, generic S where S: AsRef<str> + Display + Default)", if named { "named" } else { "tuple" }), &["transparent", "gen"], move |s| {
